@@ -3,6 +3,7 @@ package sym
 import (
 	"fmt"
 	"go/types"
+	"os"
 	"sort"
 	"strings"
 	"time"
@@ -84,12 +85,15 @@ func RunCase(prog *ssa.Program, pkg *ssa.Package, harness string, shape map[stri
 	res = &CaseResult{Harness: harness, Queries: map[string]int{}, Funcs: map[string]int{}, Stubs: map[string]int{}, ObligationIDs: map[string]int{}}
 	t0 := time.Now()
 	var st *State
+	pruned := false
 	func() {
 		defer func() {
 			if r := recover(); r != nil {
 				switch x := r.(type) {
 				case *ShapeRequest:
 					req = x
+				case *PruneCase:
+					pruned = true
 				case *Unsupported:
 					err = x
 				case error:
@@ -115,6 +119,10 @@ func RunCase(prog *ssa.Program, pkg *ssa.Package, harness string, shape map[stri
 	res.Shape = e.ShapeLog
 	if req != nil {
 		return nil, req, nil
+	}
+	if pruned {
+		res.Verdict = "pruned"
+		return res, nil, nil
 	}
 	if err != nil {
 		res.Verdict = "inconclusive"
@@ -192,16 +200,7 @@ func RunCase(prog *ssa.Program, pkg *ssa.Package, harness string, shape map[stri
 			// individually, in program order; stop at the first violation
 			for i, o := range e.Obls {
 				// collect every variable of the condition for trace rendering
-				want := append([]smt.Term{}, mvars...)
-				if len(e.ThreadsDone) > 0 {
-					for _, th := range e.ThreadsDone {
-						for _, ev := range th.Events {
-							if ev.Res != nil {
-								want = append(want, ev.Res)
-							}
-						}
-					}
-				}
+				want := append([]smt.Term{}, c.Vars...)
 				ri, m := check([]smt.Term{conds[i]}, want)
 				if ri == smt.Unsat {
 					res.Discharged++
@@ -211,7 +210,7 @@ func RunCase(prog *ssa.Program, pkg *ssa.Package, harness string, shape map[stri
 					inconclusive = "solver unknown on obligation " + o.ID + " at " + o.Where
 					continue
 				}
-				v := &ViolationInfo{ID: o.ID, Where: o.Where, Model: m}
+				v := &ViolationInfo{ID: o.ID, Where: fmt.Sprintf("%s [thread %d after event %d]", o.Where, o.Thread, o.EvIdx), Model: m}
 				for _, in := range e.Inputs {
 					v.Inputs = append(v.Inputs, InputVal{in.Name, in.Kind, m[in.T.Name]})
 				}
@@ -223,6 +222,20 @@ func RunCase(prog *ssa.Program, pkg *ssa.Package, harness string, shape map[stri
 					v.Sched = append(v.Sched, row)
 				}
 				v.Trace = e.renderTrace(m)
+				if os.Getenv("VERIF_DEBUG") != "" {
+					memo := map[int]uint64{}
+					fmt.Fprintf(os.Stderr, "DEBUG obligation %s cond=%d reached=%d\n", o.ID, smt.Eval(o.Cond, m, memo), smt.Eval(reached(o.Thread, o.EvIdx), m, memo))
+					for _, b := range base {
+						if smt.Eval(b, m, memo) != 1 {
+							fmt.Fprintf(os.Stderr, "DEBUG base constraint false under model: node %d\n", b.ID)
+						}
+					}
+					for _, th := range e.ThreadsDone {
+						for _, ev := range th.Events {
+							fmt.Fprintf(os.Stderr, "DEBUG t%d #%d %s G=%d @%s\n", th.ID, ev.Idx, evName[ev.Kind], smt.Eval(ev.G, m, memo), ev.Where)
+						}
+					}
+				}
 				res.Violations = append(res.Violations, v)
 				break
 			}
@@ -349,7 +362,7 @@ func (e *Engine) renderTrace(m map[string]uint64) []string {
 					if ev.Off.T != nil {
 						off = smt.Eval(ev.Off.T, m, memo)
 					}
-					line += fmt.Sprintf(" %s+%d/%d", ev.Obj.Name, off, ev.N)
+					line += fmt.Sprintf(" %s%d+%d/%d", ev.Obj.Name, ev.Obj.ID, off, ev.N)
 				}
 				if ev.Lock != "" {
 					line += " " + ev.Lock
@@ -402,6 +415,11 @@ func Race(solvers []*smt.Solver, asserts []smt.Term, want []smt.Term, timeoutMs 
 		i   int
 	}
 	ch := make(chan ans, len(solvers))
+	cancels := make([]chan struct{}, len(solvers))
+	for i, s := range solvers {
+		cancels[i] = make(chan struct{})
+		s.Cancel = cancels[i]
+	}
 	for i, s := range solvers {
 		go func(i int, s *smt.Solver) {
 			r, m, err := s.Check(asserts, want, timeoutMs)
@@ -438,6 +456,7 @@ func Race(solvers []*smt.Solver, asserts []smt.Term, want []smt.Term, timeoutMs 
 				interrupted = true
 				for j, s := range solvers {
 					if j != a.i && (first == nil || j != first.i) {
+						close(cancels[j])
 						s.Interrupt()
 					}
 				}
